@@ -142,7 +142,7 @@ def check(case):
         model, fm = build_deep(case["deep"], case["tail"])
         check_model(fm, model, out, ancestors_limit=50)
         return out
-    model = case["model"]
+    model = _caterpillar(*case["caterpillar"]) if "caterpillar" in case else case["model"]
     fm = build.build(model)
     check_model(fm, model, out)
     return out
@@ -151,7 +151,7 @@ def check(case):
 @st.composite
 def big_trees(draw, max_feats):
     shape = draw(st.sampled_from(["random", "random", "chain", "star", "caterpillar"]))
-    n = draw(st.integers(1, max_feats))
+    n = draw(st.one_of(st.integers(1, 3), st.integers(1, max_feats), st.integers(1, max_feats)))
     if shape == "random":
         return {"model": draw(S.model_specs(S.BOOLEAN_ANY, 1, max_feats, with_ctcs=False))}
     feats = [build.feat(f"N{i}") for i in range(n)]
@@ -215,7 +215,7 @@ def enum_rounding(tier, seed):
             r = c / k * 100
             frac = r - int(r)
             if abs(frac - 0.5) <= 0.02 and frac != 0.5:
-                out.append({"model": _caterpillar(k, c)})
+                out.append({"caterpillar": [k, c]})
     if tier != "thorough":
         out = out[int(seed) % 3::3]
     return out
